@@ -839,3 +839,78 @@ def rule_loop_carried_state(rep: Report, repo: Repo):
     rep.floor(R, "loops inspected", n_loops, 15)
     if n_pairs == 0:
         raise AnalysisError(R, "no per-iteration container found at all (expected at least NumberOrderedForm._multiply_expr::replacements)")
+
+
+# ---------------------------------------------------------------------------
+# memo tables inside loops: the key must determine what the cached computation reads
+# ---------------------------------------------------------------------------
+
+
+def rule_memo_key(rep: Report, repo: Repo):
+    """`D = {}` before a loop, and inside it `if K not in D: <compute>; D[K] = V` ... `D[K]`: a cache across iterations.
+    Decided clause (the form that is understood): when the key K is built by a comprehension over `enumerate(X)` /
+    `range(len(X))` that keeps only POSITIONS (the element values are used for filtering at most), the cached
+    computation must not read the element values `X[...]` -- two iterations with different values at the same
+    positions would share one entry."""
+    R = "E4.memo_key"
+    n_loops = n_memos = 0
+    for mod, tree in repo.trees.items():
+        if mod in ("__init__", "algorithms"):
+            continue
+        for func in [n for n in ast.walk(tree) if isinstance(n, ast.FunctionDef)]:
+            inits = {}
+            for n in own_nodes(func):
+                if isinstance(n, ast.Assign) and isinstance(n.targets[0], ast.Name) and (
+                        (isinstance(n.value, ast.Dict) and not n.value.keys)
+                        or (isinstance(n.value, ast.Call) and call_name(n.value) in ("dict",) and not n.value.args and not n.value.keywords)):
+                    inits.setdefault(n.targets[0].id, []).append(n)
+            if not inits:
+                continue
+            for loop in [n for n in own_nodes(func) if isinstance(n, ast.For)]:
+                n_loops += 1
+                body_nodes = [x for s in loop.body for x in [s, *own_nodes(s)]]
+                for name, init_nodes in inits.items():
+                    if any(any(i is x for x in body_nodes) for i in init_nodes):
+                        continue  # re-created per iteration: not a cache across iterations
+                    guards = [x for x in body_nodes if isinstance(x, ast.If) and isinstance(x.test, ast.Compare) and len(x.test.ops) == 1
+                              and isinstance(x.test.ops[0], ast.NotIn) and norm(x.test.comparators[0]) == name
+                              and any(isinstance(s, ast.Assign) and isinstance(s.targets[0], ast.Subscript) and norm(s.targets[0].value) == name
+                                      and norm(s.targets[0].slice) == norm(x.test.left) for s in ast.walk(x))]
+                    for gd in guards:
+                        n_memos += 1
+                        K = gd.test.left
+                        q = qualname(func)
+                        inst = f"{mod}::{q} cache `{name}` keyed by `{norm(K)}` inside the loop over `{norm(loop.iter)[:40]}`"
+                        if not isinstance(K, ast.Name):
+                            rep.ok(R, inst, "key is an expression of the current item", repo.loc(mod, gd))
+                            continue
+                        kdefs = [s for s in body_nodes if isinstance(s, ast.Assign) and any(isinstance(t, ast.Name) and t.id == K.id for t in s.targets)]
+                        if len(kdefs) != 1:
+                            rep.ok(R, inst, "key is not a single in-loop definition (not analysed further)", repo.loc(mod, gd))
+                            continue
+                        kv = kdefs[0].value
+                        while isinstance(kv, ast.Call) and call_name(kv) in ("tuple", "frozenset", "list", "sorted") and len(kv.args) == 1:
+                            kv = kv.args[0]
+                        positions_of = None
+                        if isinstance(kv, (ast.GeneratorExp, ast.ListComp, ast.SetComp)) and len(kv.generators) == 1:
+                            g = kv.generators[0]
+                            if isinstance(g.iter, ast.Call) and call_name(g.iter) == "enumerate" and len(g.iter.args) == 1 \
+                                    and isinstance(g.target, ast.Tuple) and len(g.target.elts) == 2 and norm(kv.elt) == norm(g.target.elts[0]):
+                                positions_of = norm(g.iter.args[0])
+                            if isinstance(g.iter, ast.Call) and call_name(g.iter) == "range" and len(g.iter.args) == 1 \
+                                    and isinstance(g.iter.args[0], ast.Call) and call_name(g.iter.args[0]) == "len" and norm(kv.elt) == norm(g.target):
+                                positions_of = norm(g.iter.args[0].args[0])
+                        if positions_of is None:
+                            rep.ok(R, inst, "key form not position-only", repo.loc(mod, gd))
+                            continue
+                        reads = [x for s in gd.body for x in ast.walk(s) if isinstance(x, ast.Subscript) and isinstance(x.ctx, ast.Load)
+                                 and norm(x.value) == positions_of]
+                        if reads:
+                            rep.fail(R, f"{mod}::{q} cache `{name}` is keyed by positions in `{positions_of}` only, but the cached computation reads "
+                                        f"`{norm(reads[0])}`",
+                                     f"two items with different values of `{positions_of}` at the same positions share one cache entry: the second one "
+                                     "silently reuses what was computed for the first", repo.loc(mod, reads[0]))
+                        else:
+                            rep.ok(R, inst, f"position-only key, and the cached computation does not read the values of `{positions_of}`", repo.loc(mod, gd))
+    rep.count("E4.memo_key", {"loops": n_loops, "memo tables": n_memos})
+    rep.floor(R, "loops inspected", n_loops, 15)
